@@ -46,6 +46,10 @@ ColsOf(ms, names) == [i \in 1..Len(names) |->
                         IF names[i] \in DOMAIN ms.fields
                         THEN ColName(names[i], ms.fields[names[i]]) ELSE "?" \o names[i]]
 
+(* the column a relation to model `ms` points at: its primary key's column *)
+PkCol(ms) == LET pks == { f \in DOMAIN ms.fields : Bool(ms.fields[f], "primary_key") }
+             IN IF pks = {} THEN "?" ELSE LET pf == CHOOSE f \in pks : TRUE IN ColName(pf, ms.fields[pf])
+
 FreshTable(sig, mn) ==
     LET ms == sig[mn] IN
     [cols |-> { Column(fn, ms.fields[fn]) : fn \in { f \in DOMAIN ms.fields : IsCol(ms.fields[f]) } },
@@ -55,9 +59,11 @@ FreshTable(sig, mn) ==
               \* unique constraints are unique indexes; check constraints are kept in `chk`
               \cup { <<ColsOf(ms, ms.cons[i].fields), TRUE>> : i \in { j \in 1..Len(ms.cons) : ms.cons[j].kind = "unique" } },
      chk  |-> { ms.cons[i].name : i \in { j \in 1..Len(ms.cons) : ms.cons[j].kind = "check" } },
+     \* <<column, referenced table, referenced column>>
      fks  |-> { <<ColName(fn, ms.fields[fn]),
                   IF ms.fields[fn].rel \in DOMAIN sig THEN sig[ms.fields[fn].rel].table
-                  ELSE "?" \o ms.fields[fn].rel>>
+                  ELSE "?" \o ms.fields[fn].rel,
+                  IF ms.fields[fn].rel \in DOMAIN sig THEN PkCol(sig[ms.fields[fn].rel]) ELSE "?">>
                 : fn \in { f \in DOMAIN ms.fields : ms.fields[f].ftype \in {"FK", "O2O"} } }]
 
 M2MTables(sig) ==
@@ -81,7 +87,7 @@ DbApply(mu, db, sig) ==
            ELSE [db EXCEPT ![t].cols = @ \cup { Column(mu.f, fs) },
                            ![t].idx  = @ \cup FieldIndexes(mu.f, fs),
                            ![t].fks  = IF fs.ftype \in {"FK", "O2O"}
-                                       THEN @ \cup { <<ColName(mu.f, fs), sig[fs.rel].table>> }
+                                       THEN @ \cup { <<ColName(mu.f, fs), sig[fs.rel].table, PkCol(sig[fs.rel])>> }
                                        ELSE @]
     [] mu.k = "Del" ->
         LET t == sig[mu.m].table
@@ -110,10 +116,15 @@ DbApply(mu, db, sig) ==
             new == Sim(mu, sig).sig[mu.m].fields[mu.nf]
             c1 == ColName(mu.of, old)
             c2 == ColName(mu.nf, new)
+            db1 == [db EXCEPT ![t].cols = { IF x.n = c1 THEN [x EXCEPT !.n = c2] ELSE x : x \in @ },
+                              ![t].idx  = { RenameColIn(x, c1, c2) : x \in @ },
+                              ![t].fks  = { IF x[1] = c1 THEN <<c2, x[2], x[3]>> ELSE x : x \in @ }]
         IN IF ~IsCol(old) THEN db
-           ELSE [db EXCEPT ![t].cols = { IF x.n = c1 THEN [x EXCEPT !.n = c2] ELSE x : x \in @ },
-                           ![t].idx  = { RenameColIn(x, c1, c2) : x \in @ },
-                           ![t].fks  = { IF x[1] = c1 THEN <<c2, x[2]>> ELSE x : x \in @ }]
+           \* a renamed primary key: every foreign key that points at it follows
+           ELSE IF Bool(old, "primary_key")
+           THEN [u \in DOMAIN db1 |->
+                   [db1[u] EXCEPT !.fks = { IF x[2] = t /\ x[3] = c1 THEN <<x[1], x[2], c2>> ELSE x : x \in @ }]]
+           ELSE db1
     [] mu.k = "Meta" ->
         LET t == sig[mu.m].table IN
         IF mu.prop = "unique_together"
@@ -135,7 +146,7 @@ DbApply(mu, db, sig) ==
             t2 == mu.dbtable
             moved == [t \in ((DOMAIN db) \ {t1}) \cup {t2} |-> IF t = t2 THEN db[t1] ELSE db[t]]
         IN [t \in DOMAIN moved |->
-              [moved[t] EXCEPT !.fks = { IF x[2] = t1 THEN <<x[1], t2>> ELSE x : x \in @ }]]
+              [moved[t] EXCEPT !.fks = { IF x[2] = t1 THEN <<x[1], t2, x[3]>> ELSE x : x \in @ }]]
     [] mu.k = "DelM" -> [t \in (DOMAIN db) \ {sig[mu.m].table} |-> db[t]]
     [] OTHER -> db
 
